@@ -2,6 +2,7 @@ import Nstd.Sync.LemmasMutex
 import Nstd.Sync.LemmasSem
 import Nstd.Sync.LemmasSignal
 import Nstd.Sync.LemmasMonitor
+import Nstd.Sync.LemmasThr
 import Nstd.Sync.LemmasRun
 import Nstd.Sync.LemmasScenario
 import Nstd.Sync.LiveSem
@@ -149,21 +150,25 @@ theorem signal_no_waiter_stuck_while_set {set0 : Bool} {now spur : Nat} {s : Sig
     have hv := hall v hm
     exact ⟨v, hv, by simp [Signal.step, hv]⟩
 
-/-- set() releases all current waiters: the broadcast step of set() moves every thread of the wait set to the
-    re-acquisition of the mutex (none stays blocked), and a released waiter that gets the mutex while the flag is
-    still set leaves wait() with `true`. -/
+/-- set() releases all current waiters.  Library content (over every reachable state): when set() arrives at its
+    broadcast it still holds the internal mutex and the flag it stored is still set, so no waiter can slip into the
+    wait set between store and broadcast and no reset() can intervene; ASSUMED `pthread_cond_broadcast`: the step then
+    moves every thread of the wait set to the re-acquisition of the mutex, none stays blocked; the flag is still set and
+    the mutex still held afterwards, so the first released waiter to get the mutex finds the flag set
+    (`signal_woken_waiter_returns_true_while_set`). -/
 theorem signal_set_releases_all_current_waiters {set0 : Bool} {now spur : Nat} {s : Signal.St}
-    (_h : Signal.Reach set0 now spur s) (t : Tid) (ht : s.pc t = .setBcast) :
+    (h : Signal.Reach set0 now spur s) (t : Tid) (ht : s.pc t = .setBcast) :
+    s.m = some t ∧ s.flag = true ∧
     ∃ s', Signal.step s t (.run 0) = some s' ∧
       (∀ u dl, s.pc u = .wBlocked dl → s'.pc u = .wRelock dl false) ∧
-      (∀ u dl, s'.pc u ≠ .wBlocked dl) ∧
-      (∀ s1 u dl, s1.pc u = .wRelock dl false → s1.flag = true → s1.m = none →
-        ∃ s2, Signal.step s1 u (.run 0) = some s2 ∧ s2.pc u = .wUnlock true dl) := by
+      (∀ u dl, s'.pc u ≠ .wBlocked dl) ∧ s'.flag = true ∧ s'.m = some t := by
+  have hi := Signal.inv_reach h
+  refine ⟨hi.own t (by rw [ht]; rfl), hi.bcastTrue t ht, ?_⟩
   cases hs : Signal.step s t (.run 0) with
   | none => simp [Signal.step, ht] at hs
   | some s' => ?_
   simp [Signal.step, ht] at hs; subst hs
-  refine ⟨_, rfl, ?_, ?_, ?_⟩
+  refine ⟨_, rfl, ?_, ?_, hi.bcastTrue t ht, hi.own t (by rw [ht]; rfl)⟩
   · intro u dl hu
     have hut : u ≠ t := by intro e; subst e; simp [ht] at hu
     simp [Signal.goto, upd, hut, hu]
@@ -172,12 +177,17 @@ theorem signal_set_releases_all_current_waiters {set0 : Bool} {now spur : Nat} {
     · subst hut; simp [Signal.goto, upd]
     · simp only [Signal.goto, upd, hut, if_false]
       cases hp : s.pc u <;> simp
-  · intro s1 u dl hu hf hm
-    cases hs : Signal.step s1 u (.run 0) with
-    | none => simp [Signal.step, hu, hm] at hs
-    | some s2 =>
-      simp [Signal.step, hu, hm, Signal.loopHead, hf] at hs; subst hs
-      exact ⟨_, rfl, by simp [Signal.goto, upd]⟩
+
+/-- a released waiter that gets the mutex while the flag is set leaves wait() / wait(timeout) with `true`
+    (one step of the wait loop: re-acquire, `if(signaled)`; holds in every state) -/
+theorem signal_woken_waiter_returns_true_while_set (s1 : Signal.St) (u : Tid) (dl : Option Deadline)
+    (hu : s1.pc u = .wRelock dl false) (hf : s1.flag = true) (hm : s1.m = none) :
+    ∃ s2, Signal.step s1 u (.run 0) = some s2 ∧ s2.pc u = .wUnlock true dl ∧ s2.m = some u := by
+  cases hs : Signal.step s1 u (.run 0) with
+  | none => simp [Signal.step, hu, hm] at hs
+  | some s2 =>
+    simp [Signal.step, hu, hm, Signal.loopHead, hf] at hs; subst hs
+    exact ⟨_, rfl, by simp [Signal.goto, upd], by simp [Signal.goto]⟩
 
 /-- The internal mutex of a Signal is never held for ever: in every reachable state its owner sits at a program
     point whose next step is enabled (so a released waiter eventually gets the mutex under any fair schedule). -/
@@ -365,35 +375,45 @@ theorem Thr.finished_stable {s s' : Thr.St} {j u : Tid} {a : Thr.Act} {v : Nat}
         · cases hst : s.status k <;> simp [hst, Thr.done] at hs
           subst hs; exact hv
 
-/-- Thread::join returns the thread function's result after it has finished: the join step is enabled only when
-    the target thread has finished, it then returns exactly the value the function returned, and a finished
-    thread's result never changes.  (Every state, every thread; also when pthread_create may fail.) -/
-theorem join_returns_result (s : Thr.St) (t j : Tid) (hpc : s.pc t = .join j) :
+/-- Thread::join returns the thread function's result after it has finished.
+    ASSUMED (`pthread_join` of Posix.lean, not library content): the join is enabled only once the target has finished and
+    yields the value its function returned; a finished thread's result never changes (`Thr.finished_stable`).
+    LIBRARY content, over every reachable state (any schedule, any number of threads and Thread objects, pthread_create
+    failing up to `cfail` times): an attached Thread object (`thread != 0`) always names a thread that was really created
+    — the handle is set exactly by a successful create and cleared only after the join —, `join()` hands the joined value
+    through unchanged, detaches the object, and returns to the caller.  Which FUNCTION the thread runs (the functor of the
+    member-function overload, Thread.hpp) is not in the model; that part is covered by the correspondence run only
+    (it found the defect repaired by fixes/sync/0002). -/
+theorem join_returns_result {cfail : Nat} {s : Thr.St} (h : Thr.Reach cfail s) (t j : Tid) (hpc : s.pc t = .join j) :
+    (s.handle j = true → s.status j ≠ .none) ∧
     (∀ alt s', Thr.step s t (.api (.run alt)) = some s' →
-       ∃ v, s.status j = .finished v ∧ s'.ret t = some (.num v) ∧ s'.pc t = .idle ∧ s'.handle j = false) ∧
-    (∀ v, s.status j = .finished v → ∃ s', Thr.step s t (.api (.run 0)) = some s') ∧
-    (∀ v u a s', s.status j = .finished v → Thr.step s u a = some s' → s'.status j = .finished v) := by
-  refine ⟨?_, ?_, fun v u a s' hv hs => Thr.finished_stable hv hs⟩
+       ∃ v, s.status j = .finished v ∧ s'.ret t = some (.num v) ∧ s'.pc t = .idle ∧ s'.handle j = false ∧
+         Thr.Reach cfail s') ∧
+    (∀ v, s.status j = .finished v → ∃ s', Thr.step s t (.api (.run 0)) = some s') := by
+  refine ⟨Thr.inv_reach h j, ?_, ?_⟩
   · intro alt s' hs
+    have hr : Thr.Reach cfail s' := .step h hs
     simp only [Thr.step, hpc] at hs
     split at hs
     · simp at hs
     · cases hst : s.status j <;> simp [hst] at hs
       subst hs
-      exact ⟨_, rfl, by simp [Thr.done], by simp [Thr.done], by simp [Thr.done]⟩
+      exact ⟨_, rfl, by simp [Thr.done], by simp [Thr.done], by simp [Thr.done], hr⟩
   · intro v hv
     cases hs : Thr.step s t (.api (.run 0)) with
     | none => simp [Thr.step, hpc, hv] at hs
     | some s' => exact ⟨_, rfl⟩
 
 /-- Thread::~Thread() of an object that still holds a thread waits for that thread to finish (the join inside the
-    destructor), and Thread::start reports a failing pthread_create as `false` without attaching a thread. -/
-theorem thread_dtor_waits_and_failed_start_is_clean (s : Thr.St) (t j : Tid) :
+    destructor; the waiting itself is the ASSUMED pthread_join), and Thread::start reports a failing pthread_create as
+    `false` without attaching a thread (library content: handle, thread table unchanged).  Reachable states. -/
+theorem thread_dtor_waits_and_failed_start_is_clean {cfail : Nat} {s : Thr.St} (h : Thr.Reach cfail s) (t j : Tid) :
+    (s.handle j = true → s.status j ≠ .none) ∧
     (s.pc t = .dtor j → ∀ alt s', Thr.step s t (.api (.run alt)) = some s' →
        (∃ v, s.status j = .finished v) ∧ s'.pc t = .idle ∧ s'.handle j = false) ∧
     (s.pc t = .create j → ∀ s', Thr.step s t (.api (.run 1)) = some s' →
        s'.ret t = some (.bool false) ∧ s'.handle = s.handle ∧ s'.status = s.status ∧ s'.cfail + 1 = s.cfail) := by
-  refine ⟨?_, ?_⟩
+  refine ⟨Thr.inv_reach h j, ?_, ?_⟩
   · intro hpc alt s' hs
     simp only [Thr.step, hpc] at hs
     split at hs
